@@ -151,7 +151,7 @@ def templates(rng):
   """-> (name, source, expectation) ; expectation: list of (input, 'return'|'raise')"""
   w = rng.choice([1, 2, 4, 8, 16, 33, 64])
   n = rng.randrange(3, 14)
-  t = rng.randrange(12)
+  t = rng.randrange(13)
   H = HDR.format(w=w) + FL_HDR
   if t == 0:   # monotone, convergent
     body = f"""    s.a = InPort({w}); s.b = InPort({w}); s.x = Wire({w}); s.y = Wire({w})
@@ -255,6 +255,29 @@ def templates(rng):
     def up3(): s.z @= s.t"""
     return "edge-with-two-signals-of-different-kinds", H, body, [({"a": 1, "b": 0}, "return"), ({"a": rng.getrandbits(w) | 1, "b": 0}, "return"),
                                                                ({"a": (1 << w) - 1, "b": 0}, "return"), ({"a": 0, "b": 1}, "return")]
+  if t == 12:  # a false loop through the two elements of a LIST field; two blocks copy the struct WHOLE; all blocks hang below one
+    # predecessor, so they are evaluated in name order a, b, c - against the data flow c -> b -> a: several sweeps are needed
+    # and in one of them only the whole-struct copies change
+    k = rng.randrange(2, 4)
+    Hv = f"from pymtl3 import *\n@bitstruct\nclass Vec:\n  v: [mk_bits({w})] * {k}\n"
+    body = f"""    s.a = InPort({w}); s.o = OutPort({w}); s.pre = Wire({w}); s.S = Wire(Vec); s.T = Wire(Vec); s.U = Wire(Vec); s.da = Wire({w}); s.db = Wire({w})
+    @update
+    def up_in(): s.pre @= s.a
+    @update
+    def blk_a():
+      s.S @= s.T
+      s.da @= s.pre
+    @update
+    def blk_b():
+      s.T @= s.U
+      s.db @= s.pre
+    @update
+    def blk_c():
+      s.U.v[0] @= s.pre
+""" + "\n".join(f"      s.U.v[{i}] @= s.S.v[{i - 1}] + 1" for i in range(1, k)) + f"""
+    @update
+    def up_out(): s.o @= s.S.v[{k - 1}]"""
+    return "false-loop-through-list-field-with-whole-struct-copies", Hv + FL_HDR, body, [({"a": rng.getrandbits(w)}, "return") for _ in range(4)]
   # t == 8: saturating min chain (convergent after several iterations)
   body = f"""    s.a = InPort({w}); s.x = Wire({w}); s.y = Wire({w})
     @update
